@@ -251,6 +251,11 @@ func (torrent *Torrent) MetadataComplete() error {
 	if chunks != int64(uint32(chunks)) || chunks != int64(int(chunks)) {
 		return errors.New("torrent too large")
 	}
+	pieces := (length + int64(info.PieceLength) - 1) /
+		int64(info.PieceLength)
+	if int64(len(hashes)) != pieces {
+		return errors.New("pieces has wrong size")
+	}
 	torrent.inFlight = make([]uint8, chunks)
 
 	torrent.PieceHashes = hashes
